@@ -199,6 +199,12 @@ def value_scaling(pid):
 def c17_limits(op, impl, model):
     """an operation the exact accounting refuses for a cap / utilisation reason goes through in the implementation"""
     kind = op.split(" ", 1)[0]
+    if kind == "ix.dep" and impl.startswith("ok") and model.startswith("ok"):
+        i, m = _nums(impl), _nums(model)
+        if i and m and len(i) == len(m) and i[:-1] == m[:-1] and i[-1] > m[-1]:
+            return (f"C17 a deposit (clamped to the bank's remaining capacity) credited exactly what the capacity admits - the booking equals the exact "
+                    f"accounting's, which collects {m[-1]} tokens for it - but {i[-1]} tokens were pulled from the depositor: the transfer is sized from "
+                    f"the requested amount, not from the remaining capacity: {op}")
     if not (impl.startswith("ok") and model.startswith("err ")):
         return None
     code = model.split()[1]
@@ -357,6 +363,36 @@ def c20_venue_value(op, impl, model):
     return None
 
 
+def tf_mint(pid):
+    """tf.mint kind olderBps olderMax newerEpoch newerBps newerMax epoch amount => pre post nonzero withheld"""
+    def f(op, impl, model):
+        if not op.startswith("tf.mint"):
+            return None
+        try:
+            a = [0] + [int(x) for x in op.split()[1:]]
+        except ValueError:
+            return None
+        a = a[1:]
+        it, mt = impl.split(), model.split()
+        if not a or len(a) < 8 or len(it) < 7 or len(mt) < 7:
+            return None
+        if it[-2:] != mt[-2:]:
+            return None  # the token program's own arithmetic differs from the model: a model problem, not a finding
+        cfg = (f"Token-2022 mint with older fee {a[1]} bps (cap {a[2]}), newer fee {a[4]} bps (cap {a[5]}) from epoch {a[3]}; "
+               f"epoch {a[6]}, amount {a[7]}")
+        if it[0:2] != mt[0:2]:
+            return (f"{pid} calculate_pre_fee_spl_deposit_amount returns {' '.join(it[0:2])} where the fee the token program withholds in this epoch "
+                    f"requires {' '.join(mt[0:2])}: a transfer sized this way delivers an amount other than the one booked "
+                    f"(vault short / emissions credited beyond what arrived): {cfg}")
+        if it[2:4] != mt[2:4]:
+            return (f"{pid} calculate_post_fee_spl_deposit_amount returns {' '.join(it[2:4])} where the token program delivers {' '.join(mt[2:4])} "
+                    f"after its fee of this epoch: {cfg}")
+        if it[4] != mt[4]:
+            return f"{pid} nonzero_fee says {it[4]} where the fee in force in this epoch says {mt[4]}: {cfg}"
+        return None
+    return f
+
+
 def c06_accrual(op, impl, model):
     """b.accrue <bank 16> ..  =>  ok <bank 16> <last_update> ..: same share values, different fee buckets"""
     if not op.startswith("b.accrue"):
@@ -384,15 +420,15 @@ WITNESS = {
     "C07": [c07_health, c07_soc],
     "C09": [c09_health],
     "C16": [c16_foc, c16_tags],
-    "C03": [ixf_tokens("C03")],
+    "C03": [ixf_tokens("C03"), tf_mint("C03")],
     "C17": [c17_limits],
     "C06": [c06_accrual],
-    "C19": [c19_emissions],
+    "C19": [c19_emissions, tf_mint("C19")],
     "C02": [c02_closebank],
     "C11": [c11_health],
     "C10": [bracket_conditions("C10"), c10_health],
     "C20": [c20_venue_value, c20_fail_closed],
-    "C01": [ixf_tokens("C01")],
+    "C01": [ixf_tokens("C01"), tf_mint("C01")],
 }
 
 
